@@ -292,8 +292,11 @@ func (fs *FileSink) pruneFiles() error {
 	// get all the files that match the log file pattern. The directory is
 	// listed rather than globbed: a configured path or file name is not a glob
 	// pattern (logs[1] would match nothing, and nothing would ever be pruned).
-	pattern := fs.fileNamePattern()
-	entries, err := os.ReadDir(fs.Path)
+	// (the configured file name may carry a directory part: the files live
+	// where the active file lives)
+	dir := filepath.Dir(filepath.Join(fs.Path, fs.FileName))
+	pattern := filepath.Base(fs.fileNamePattern())
+	entries, err := os.ReadDir(dir)
 	if err != nil {
 		return err
 	}
@@ -305,7 +308,7 @@ func (fs *FileSink) pruneFiles() error {
 	for _, entry := range entries {
 		// (a directory is never one of them, whatever it is called)
 		if !entry.IsDir() && isRotatedName(pattern, entry.Name()) {
-			matches = append(matches, filepath.Join(fs.Path, entry.Name()))
+			matches = append(matches, filepath.Join(dir, entry.Name()))
 		}
 	}
 
